@@ -5,8 +5,8 @@ C39 (GMP accounts are uniquely derived and only act for themselves).
 
 Pipeline (FRAMEWORK.md section 1):
  (a) exhaustive TLC model checks MC_ICA / MC_GMP with vacuity witnesses;
- (b) generation by TLC: full enumerations serialised once (Enum_ICA: every message list x allow list for C37 and the canonical
-     schedule of the recorded C38 findings; Enum_GMP: derivation table, every message list, every send-authorisation case) and
+ (b) generation by TLC: full enumerations serialised once (Enum_ICA: every message list x allow list for C37, the canonical
+     schedule of the recorded C38 findings and the always-run canonical schedules AllowCases / ReopenCases / XConn; Enum_GMP: derivation table, every message list, every send-authorisation case) and
      tlc -simulate random walks with goal-directed macros (Sched_ICA, Sched_GMP);
  (c) harness/icagmp executes every schedule on real ibctesting chains and logs the projected state after every step;
  (d) TLC trace validation (Trace_ICA / Trace_GMP) prints MONFAIL lines; only those decide.
@@ -33,7 +33,7 @@ def sizes(tier):
     if tier == "quick":
         return dict(ica_kinds=6, ica_allows={"star", "specific", "empty"}, ica_chunks=4, ica_walks=20, ica_depth=48,
                     gmp_kinds=5, gmp_chunks=3, gmp_walks=5, gmp_depth=40, sym_len=2, shards=10, vparts=3, sim_parts=1)
-    return dict(ica_kinds=8, ica_allows={"star", "specific", "empty", "starplus"}, ica_chunks=6, ica_walks=260, ica_depth=70,
+    return dict(ica_kinds=8, ica_allows={"star", "specific", "empty", "starplus", "nearmiss"}, ica_chunks=6, ica_walks=260, ica_depth=70,
                 gmp_kinds=7, gmp_chunks=8, gmp_walks=40, gmp_depth=60, sym_len=3, shards=14, vparts=6, sim_parts=4)
 
 
@@ -51,7 +51,7 @@ MC_SPECS = {
                 properties=["ActiveReplacedOnlyWhenClosed", "ReopenSame", "AddrStable", "HostStateOnlyByResult", "SendOnlyOnOpenActive"],
                 witness=["Register", "OpenInit", "ForeignInit", "Try", "Ack", "Confirm", "CloseConfirm", "SendTx", "Recv", "Timeout", "Wait",
                          "Reopen", "ExecResult", "ExecError", "ClosedByTimeout", "InflightAckBlocked", "HostConfirmBlocked", "StrangerInit",
-                         "DuplicateInit"]),
+                         "DuplicateInit", "DefaultVersion"]),
     "GMP": dict(module="MC_GMP", invariants=["Inv"], properties=["MappingStable", "HostStateOnlyByResult"],
                 witness=["Send", "Recv", "ExecResult", "ExecError", "FirstUse", "Reuse", "PreimageInjective", "ConcatCollides", "Textbook"]),
 }
@@ -257,12 +257,17 @@ def coverage_of(traces):
 # vacuity floors: substrings of coverage keys that must have a positive count
 FLOORS = {
     "C37": ["exec-star:Recv:ok:result", "exec-star:Recv:ok:error", "exec-specific:Recv:ok:result", "exec-specific:Recv:ok:error",
-            "exec-empty:Recv:ok:error", "exec-star:Recv:noop", "ica-walk:Recv:ok:"],
+            "exec-empty:Recv:ok:error", "exec-star:Recv:noop", "ica-walk:Recv:ok:",
+            # canonical schedules: allow-list boundary cases, crossed connection identifiers (one owner on two connections)
+            "allowcases:Recv:ok:error", "allowcases:Recv:ok:result", "xconn:Recv:ok:result", "xconn:Recv:ok:error"],
     "C38": ["Register:ok", "Register:err", "OpenInit:ok", "OpenInit:err", "Ack:ok", "Ack:err", "Confirm:ok", "Timeout:ok", "SendTx:ok", "SendTx:err",
             "InitOnHost:err", "TryOnController:err", "CloseConfirm:ok", "ica-walk:Ack:ok", "ica-walk:Timeout:ok",
             "cover:reopen-completed", "cover:reopen-with-different-ordering-or-metadata-rejected", "cover:class-inflight-ack",
             "cover:class-host-confirm-overwrite", "cover:init-by-stranger-accepted", "cover:sendtx-by-stranger-rejected",
-            "cover:ordered-channel-closed-by-timeout", "cover:ack-while-active-open-rejected"],
+            "cover:ordered-channel-closed-by-timeout", "cover:ack-while-active-open-rejected",
+            # canonical re-opening schedules (every mismatching initialisation incl. the empty version string), crossed world
+            "reopen:Register:err", "reopen:OpenInit:err", "reopen:Ack:ok", "xconn:Ack:ok", "xconn:Register:err",
+            "cover:reopen-with-empty-version-after-non-default-metadata-rejected"],
     "C39": ["gmp-exec:Recv:ok:result", "gmp-exec:Recv:ok:error", "gmp-exec:Recv:noop", "gmp-auth:Send:ok", "gmp-auth:Send:err",
             "gmp-walk:Recv:ok:", "derive:Derive:ok"],
 }
